@@ -47,6 +47,9 @@ CONFIGS = {
     "tet2_211v": ("tet2", np.diag([2, 1, 1]), (1,), 1.05, 3, 1.05, 1, True),
     "hcp221": ("hcp", np.diag([2, 2, 1]), (), 1.01, 3, 1.01, None, True),
     "hcp221p": ("hcp", np.diag([2, 2, 1]), (), 1.01, 2, 1.01, None, True),      # pair clusters only (fast)
+    # transition-state expansion RICHER than the energy expansion (pairs for energies, triplets for barriers)
+    "fccndt": ("fcc", np.array([[1, 1, 0], [-1, 1, 0], [0, 0, 2]]), (), 0.8, 2, 0.8, None, True, 3),
+    "fcc222t": ("fcc", 2 * np.eye(3, dtype=int), (), 0.8, 2, 0.8, None, True, 4),
     "sc311j": ("sc", np.diag([3, 1, 1]), (), 1.01, 3, 1.01, None, True),
     "hcp221v": ("hcp", np.diag([2, 2, 1]), (), 1.01, 3, 1.01, 2, True),
     "sc332": ("sc", np.diag([3, 3, 2]), (), 1.01, 3, 1.01, None, True),
@@ -63,7 +66,8 @@ class Setup:
 def build(name, rng, vacancy_override="same", values=None):
     """Build the real objects for configuration `name`; integer (even) cluster values from rng."""
     from onsager import cluster, supercell
-    cname, superlatt, spectator, cut, maxorder, jcut, vac, ts = CONFIGS[name]
+    cname, superlatt, spectator, cut, maxorder, jcut, vac, ts = CONFIGS[name][:8]
+    tsorder = CONFIGS[name][8] if len(CONFIGS[name]) > 8 else None
     s = Setup()
     s.name = name
     s.crys = crystals(cname)
@@ -93,8 +97,10 @@ def build(name, rng, vacancy_override="same", values=None):
     if jcut is not None:
         s.jumpnetwork = s.crys.jumpnetwork(s.chem, jcut)
         if ts:
-            s.TSclusterexp = cluster.makeTSclusters(s.crys, s.chem, s.jumpnetwork,
-                                                    vacexp if vac is not None else s.clusterexp)
+            tsbase = vacexp if vac is not None else s.clusterexp
+            if tsorder is not None and vac is None:
+                tsbase = cluster.makeclusters(s.crys, cut, tsorder)
+            s.TSclusterexp = cluster.makeTSclusters(s.crys, s.chem, s.jumpnetwork, tsbase)
         if "KRA" not in values:
             values["KRA"] = [rng.randint(0, 4) for _ in s.jumpnetwork]
             values["TS"] = [rng.randint(-2, 2) for _ in s.TSclusterexp]
